@@ -338,7 +338,8 @@ theorem renderInj_ascii (ops : List Op)
       | .req name _ => ∀ c ∈ name, unreserved c = true
       | .push fn => ∀ c ∈ fn, unreserved c = true
       | .pop => True
-      | .ptr _ _ => False) : RenderInj (bases ops) := by
+      | .ptr _ _ => False
+      | .obj _ name _ => ∀ c ∈ name, unreserved c = true) : RenderInj (bases ops) := by
   apply renderInj_noDollar
   intro b hb
   simp only [bases, List.mem_flatMap] at hb
@@ -356,6 +357,11 @@ theorem renderInj_ascii (ops : List Op)
     rw [hb]
     exact encodeIdent_dots_noDollar fn this
   | ptr v name => exact absurd this id
+  | obj o name pk =>
+    simp only [opBase, List.mem_singleton] at hb
+    rw [hb, encodeIdent_ascii name this]
+    intro hm
+    exact (unreserved_lt 36 (this 36 hm)).2 rfl
 
 theorem encodeIdent_ascii_id (name : Name) (h : ∀ c ∈ name, unreserved c = true) : encodeIdent name = name :=
   encodeIdent_ascii name h
@@ -366,7 +372,8 @@ theorem names_distinct_plain_ascii (ops : List Op) (st : NState)
       | .req name _ => ∀ c ∈ name, unreserved c = true
       | .push fn => ∀ c ∈ fn, unreserved c = true
       | .pop => True
-      | .ptr _ _ => False)
+      | .ptr _ _ => False
+      | .obj _ name _ => ∀ c ∈ name, unreserved c = true)
     (h : runOps false initStateG ops = some st) :
     (visible st).Nodup ∧ (∀ n ∈ visible st, n ∉ reservedAll) :=
   names_distinct_plain ops st (renderInj_ascii ops hreq) h
@@ -403,7 +410,8 @@ theorem encodeIdent_inj_utf8 (ops : List Op)
       | .req name _ => Valid name
       | .push fn => Valid fn
       | .pop => True
-      | .ptr _ name => Valid name) : RenderInj (bases ops) := by
+      | .ptr _ name => Valid name
+      | .obj _ name _ => Valid name) : RenderInj (bases ops) := by
   apply renderInj_valid
   intro b hb
   simp only [bases, List.mem_flatMap] at hb
@@ -420,6 +428,9 @@ theorem encodeIdent_inj_utf8 (ops : List Op)
   | ptr v name =>
     simp only [opBase, List.mem_singleton] at hb
     exact ⟨name ++ ptrSuffix, valid_append this valid_ptrSuffix, hb⟩
+  | obj o name pk =>
+    simp only [opBase, List.mem_singleton] at hb
+    exact ⟨name, this, hb⟩
 
 open GV.Proofs.EncodeInj in
 /-- **names_distinct_plain for all valid Go identifiers** — no side condition left: for every history whose requested
@@ -430,7 +441,8 @@ theorem names_distinct_plain_valid (ops : List Op) (st : NState)
       | .req name _ => Valid name
       | .push fn => Valid fn
       | .pop => True
-      | .ptr _ name => Valid name)
+      | .ptr _ name => Valid name
+      | .obj _ name _ => Valid name)
     (h : runOps false initStateG ops = some st) :
     (visible st).Nodup ∧ (∀ n ∈ visible st, n ∉ reservedAll) :=
   names_distinct_plain ops st (encodeIdent_inj_utf8 ops hreq) h
